@@ -10,13 +10,17 @@ root = sys.argv[1]
 only = sys.argv[2:]
 ids = [c['property_id'] for c in json.load(open(VERIF + '/MANIFEST.json'))['checks']]
 head = subprocess.check_output(['git', '-C', '/repo', 'rev-parse', 'HEAD']).decode().strip()
-seeds = sorted(glob.glob(root + '/C*/[0-9]*/patch.diff'))
+seeds = sorted(glob.glob(root + '/C*/[0-9]*/patch.diff') +
+               glob.glob(root + '/C*-[0-9]*/patch.diff'))
 if only:
-    seeds = [s for s in seeds if s.split('/')[-3] in only]
+    seeds = [s for s in seeds if s.split('/')[-3] in only or
+             s.split('/')[-2].split('-')[0] in only]
 
 def run(seed):
     d = os.path.dirname(seed)
     prop = os.path.basename(os.path.dirname(d)); n = os.path.basename(d)
+    if '-' in n and n.startswith('C'):
+        prop, n = n.split('-', 1)
     wt = '/tmp/bm/%s-%s' % (prop, n)
     shutil.rmtree(wt, ignore_errors=True)
     subprocess.run(['git', '-C', '/repo', 'worktree', 'prune'], capture_output=True)
